@@ -12,23 +12,8 @@ verus! {
 /// `parse::` paths of bloom.rs resolve to the items above
 pub mod parse {
     pub use super::{Input, ParseResult, ParseError, leb128_u32, take_n};
-    pub mod leb128 { pub use super::super::Error; }
+    pub use super::leb128;
 }
-/// the `leb128` crate writer: ASSUMED `out == old ++ leb(n)` (backed by Kani harness
-/// u03_leb128_writer_matches_parser for all u64); `signed` is listed so that a switch to the signed
-/// writer is a failed obligation rather than an unknown function
-pub open spec fn sleb(i: int) -> Seq<u8> decreases (if i >= 0 { i } else { -i - 1 }) {
-    if -64 <= i < 64 { seq![(i % 128) as u8] } else { seq![((i % 128) + 128) as u8] + sleb(i / 128 - (if i % 128 < 0 { 1int } else { 0int })) }
-}
-pub mod leb128 { pub mod write {
-    use vstd::prelude::*;
-    verus!{
-    #[verifier::external_body]
-    pub fn unsigned(out: &mut Vec<u8>, n: u64) -> (r: Result<usize, ()>) ensures final(out)@ == old(out)@ + super::super::leb(n as nat), r is Ok { unimplemented!() }
-    #[verifier::external_body]
-    pub fn signed(out: &mut Vec<u8>, n: i64) -> (r: Result<usize, ()>) ensures final(out)@ == old(out)@ + super::super::sleb(n as int), r is Ok { unimplemented!() }
-    }
-}}
 
 pub mod bloom {
 use super::*;
